@@ -508,6 +508,11 @@ theorem closed_subcells (root : PCell) (nc : NoCollision root) (P : List PCell) 
       have := psize_lt_of_mem_refs hr
       exact closed_subcells root nc P hs hc n y (by omega) hy d hdr
 
+/-- `while stack:` and `while len(stack) > 0:` are the same test -/
+theorem cond_len (s : OState) : decide (s.2.1.length > 0) = decide (s.2.1 ≠ []) := by
+  rcases s with ⟨a, b, c⟩
+  cases b <;> simp
+
 theorem nodup_reverse' {l : List Nat} (h : l.Nodup) : l.reverse.Nodup := by
   unfold List.Nodup at *
   rw [List.pairwise_reverse]
@@ -566,11 +571,14 @@ theorem foldl_moveToEnd_nodup : ∀ (xs : List PCell) (d : Py.KDict PCell Unit),
 keys of the returned dict are, in iteration order, a `ValidOrder` of the root -/
 theorem order_any_shape (ch : PCell → List PCell) (hperm : ∀ c, (ch c).Perm c.refs)
     (body : OState → Option OState) (step : Py.KDict PCell Unit → PCell → Option (Py.KDict PCell Unit))
+    (cond : OState → Bool) (hcond : ∀ s, cond s = decide (s.2.1 ≠ []))
     (hb : ∀ s, body s = stepG ch s) (hs : ∀ d c, step d c = moveStep PCell.key () d c) (fuel : Nat) (p : PCell)
     (d : Py.KDict PCell Unit) (nc : NoCollision p)
-    (h : ((Py.while? (fun s : OState => decide (s.2.1 ≠ [])) body fuel ([], [(p, false)], [])).bind fun x =>
+    (h : ((Py.while? cond body fuel ([], [(p, false)], [])).bind fun x =>
       (List.foldlM step [] x.1.reverse).bind fun r => some r) = some d) :
     ValidOrder p (Py.dictKeys d) ∧ d = (Py.dictKeys d).map (fun c => (c, ())) := by
+  have hc : cond = fun s : OState => decide (s.2.1 ≠ []) := funext hcond
+  subst hc
   have hstep : step = moveStep PCell.key () := by funext d c; exact hs d c
   rw [hstep] at h
   cases hW : Py.while? (fun s : OState => decide (s.2.1 ≠ [])) body fuel ([], [(p, false)], []) with
@@ -592,11 +600,14 @@ theorem order_any_shape (ch : PCell → List PCell) (hperm : ∀ c, (ch c).Perm 
 `e` references in total) the iteration budget `1 + n + e + 1` suffices and the function returns -/
 theorem order_linear_shape (ch : PCell → List PCell) (hperm : ∀ c, (ch c).Perm c.refs)
     (body : OState → Option OState) (step : Py.KDict PCell Unit → PCell → Option (Py.KDict PCell Unit))
+    (cond : OState → Bool) (hcond : ∀ s, cond s = decide (s.2.1 ≠ []))
     (hb : ∀ s, body s = stepG ch s) (hs : ∀ d c, step d c = moveStep PCell.key () d c) (fuel : Nat) (p : PCell)
     (nc : NoCollision p) (cells : List PCell) (hn : (cells.map PCell.key).Nodup) (hc : ∀ d ∈ subcells p, d ∈ cells)
     (hf : 1 + cells.length + (cells.map (fun c => c.refs.length)).sum + 1 ≤ fuel) :
-    ∃ d, ((Py.while? (fun s : OState => decide (s.2.1 ≠ [])) body fuel ([], [(p, false)], [])).bind fun x =>
+    ∃ d, ((Py.while? cond body fuel ([], [(p, false)], [])).bind fun x =>
       (List.foldlM step [] x.1.reverse).bind fun r => some r) = some d := by
+  have hcd : cond = fun s : OState => decide (s.2.1 ≠ []) := funext hcond
+  subst hcd
   have hstep : step = moveStep PCell.key () := by funext d c; exact hs d c
   have hpot : potential cells ([], [(p, false)], []) = 1 + cells.length + (cells.map (fun c => c.refs.length)).sum := by
     have hfl : cells.filter (fun y => !Py.setHas PCell.key ([] : Py.KSet PCell) y) = cells :=
@@ -625,9 +636,12 @@ theorem src_order_valid_any (fuel : Nat) (p : PCell) (d : Py.KDict PCell Unit) (
   unfold order at h
   simp only [foldlM_append] at h
   first
-  | exact order_any_shape PCell.refs (fun _ => List.Perm.refl _) _ _ (fun _ => rfl) (fun _ _ => rfl) fuel p d nc h
-  | exact order_any_shape (fun c => c.refs.reverse) (fun c => List.reverse_perm _) _ _ (fun _ => rfl) (fun _ _ => rfl)
-      fuel p d nc h
+  | exact order_any_shape PCell.refs (fun _ => List.Perm.refl _) _ _ _ (fun _ => rfl) (fun _ => rfl) (fun _ _ => rfl) fuel p d nc h
+  | exact order_any_shape (fun c => c.refs.reverse) (fun c => List.reverse_perm _) _ _ _ (fun _ => rfl) (fun _ => rfl)
+      (fun _ _ => rfl) fuel p d nc h
+  | exact order_any_shape PCell.refs (fun _ => List.Perm.refl _) _ _ _ cond_len (fun _ => rfl) (fun _ _ => rfl) fuel p d nc h
+  | exact order_any_shape (fun c => c.refs.reverse) (fun c => List.reverse_perm _) _ _ _ cond_len (fun _ => rfl)
+      (fun _ _ => rfl) fuel p d nc h
 
 /-- **the regenerated `while stack:` loop ends within `1 + n + e` iterations** on every DAG -/
 theorem src_order_linear (fuel : Nat) (p : PCell) (nc : NoCollision p) (cells : List PCell)
@@ -636,9 +650,14 @@ theorem src_order_linear (fuel : Nat) (p : PCell) (nc : NoCollision p) (cells : 
   unfold order
   simp only [foldlM_append]
   first
-  | exact order_linear_shape PCell.refs (fun _ => List.Perm.refl _) _ _ (fun _ => rfl) (fun _ _ => rfl) fuel p nc cells hn hc hf
-  | exact order_linear_shape (fun c => c.refs.reverse) (fun c => List.reverse_perm _) _ _ (fun _ => rfl) (fun _ _ => rfl)
+  | exact order_linear_shape PCell.refs (fun _ => List.Perm.refl _) _ _ _ (fun _ => rfl) (fun _ => rfl) (fun _ _ => rfl)
       fuel p nc cells hn hc hf
+  | exact order_linear_shape (fun c => c.refs.reverse) (fun c => List.reverse_perm _) _ _ _ (fun _ => rfl) (fun _ => rfl)
+      (fun _ _ => rfl) fuel p nc cells hn hc hf
+  | exact order_linear_shape PCell.refs (fun _ => List.Perm.refl _) _ _ _ cond_len (fun _ => rfl) (fun _ _ => rfl)
+      fuel p nc cells hn hc hf
+  | exact order_linear_shape (fun c => c.refs.reverse) (fun c => List.reverse_perm _) _ _ _ cond_len (fun _ => rfl)
+      (fun _ _ => rfl) fuel p nc cells hn hc hf
 
 end Regenerated
 
